@@ -129,7 +129,7 @@ def gen_time(rng):
 def gen_scenario(rng, flavour='plain'):
     """flavour: plain | lock | control | stop | schedule"""
     worm = True if flavour == 'lock' else (None if rng.random() < 0.5 else False)
-    sc = gen_chain(rng, worm=worm, currents=True if flavour == 'control' else None)
+    sc = gen_chain(rng, worm=worm, currents=True if flavour in ('control', 'rules') else None)
     m = sc['motor']
     Tm_si = m['Tmax'][1] * S.ffactor('Torque', m['Tmax'][2])
     w0_si = m['w0'][1] * S.ffactor('AngularSpeed', m['w0'][2])
@@ -170,9 +170,9 @@ def gen_scenario(rng, flavour='plain'):
                     target=in_unit(rng, 'AngularPosition', rng.uniform(0.01, 2.0)), ilim=in_unit(rng, 'Current', lim))
 
     def ctl():
-        if flavour not in ('control', 'lock') and rng.random() < 0.8:
+        if flavour not in ('control', 'lock', 'rules') and rng.random() < 0.8:
             return None
-        mode = rng.random()
+        mode = rng.random() if flavour != 'rules' else rng.uniform(0.3, 0.8)
         if mode < 0.45 or not has_cur or flavour == 'lock':      # disjoint time windows
             rules, t = [], rng.choice([0.0, 0.0, rng.uniform(0, 0.01)])
             for _ in range(rng.randint(1, 3)):
@@ -206,9 +206,9 @@ def gen_scenario(rng, flavour='plain'):
     if rng.random() < 0.25 and flavour in ('lock', 'control', 'schedule'):
         ops.append(['setpwm', rng.choice([0, -1, 0.5, -0.5, 1, 0.0])])
     ops.append(['run', dt, T, c, stop()])
-    if flavour in ('schedule', 'lock') or rng.random() < 0.3:
+    if flavour in ('schedule', 'lock', 'rules') or rng.random() < 0.3:
         for _ in range(rng.randint(1, 3)):
-            k = rng.random()
+            k = rng.random() if flavour != 'rules' else rng.uniform(0.3, 0.8)
             if k < 0.5:                                    # continuation, maybe in another unit / other step
                 if rng.random() < 0.6:
                     u2 = rng.choice(S.units('Time'))
@@ -222,6 +222,10 @@ def gen_scenario(rng, flavour='plain'):
                 ops.append(['run', dt2, T2, c if rng.random() < 0.8 else ctl(), stop()])
             elif k < 0.8:
                 ops.append(['reset'])
+                if rng.random() < (0.3 if flavour != 'rules' else 0.7):
+                    l2 = dict(sc['load'])
+                    l2['c0'] = l2['c0'] * rng.choice([0.5, 2.0, 0.0, -1.0, 1.5]) + rng.choice([0.0, 1e-3 * scale / f])
+                    ops.append(['setload', l2])
                 if rng.random() < 0.4:
                     ops.append(['newsolver'])
                 if rng.random() < 0.3:
@@ -364,10 +368,15 @@ def run_impl(sc, timeout=20, keep_objects=False):
                     if x not in seen and not math.isnan(x):
                         seen.add(x)
                         res['oracle'].append(['LSquare', x, x ** 2])
+        ctl_cache = {}
         try:
             for op in sc['ops']:
                 if op[0] == 'run':
-                    ctl = make_control(pt, els, op[3])
+                    import json as _json
+                    key = _json.dumps(op[3], sort_keys=True, default=str)
+                    if key not in ctl_cache:                 # the same rule set is the same PWMControl object across runs, as in a user script
+                        ctl_cache[key] = make_control(pt, els, op[3])
+                    ctl = ctl_cache[key]
                     if op[3]:
                         lim_rules += [r for r in op[3] if r['r'] == 'lim']
                     try:
@@ -383,6 +392,8 @@ def run_impl(sc, timeout=20, keep_objects=False):
                     els[-1].angular_speed = mkq(op[2])
                 elif op[0] == 'setpwm':
                     els[0].pwm = op[1]
+                elif op[0] == 'setload':
+                    els[-1].external_torque = make_load(op[1])
                 res['marks'].append(len(pt.time))
         except Timeout:
             raise
@@ -461,8 +472,26 @@ def case_coq(sc, res):
     motor = f'(@Build_motor FX {cq(m["w0"])} {cq(m["Tmax"])} {copt(m["i0"], cq)} {copt(m["imax"], cq)})'
     elems = clist([f'(@Build_elem FX {flit(e["ratio"])} {flit(e["eff"])} {cq(["InertiaMoment"] + e["J"])} {"true" if e["spur"] else "false"})' for e in st['elems']])
     chain = f'(@Build_chain FX {motor} {cq(m["J"])} {elems} {"true" if st["selflock"] else "false"})'
-    l = sc['load']
-    load = f'(@LoadAffine FX {flit(l["c0"])} {flit(l["ct"])} {flit(l["cp"])} {flit(l["cs"])} {coq_str(l["u"])})'
+    def cload(l):
+        return f'(@LoadAffine FX {flit(l["c0"])} {flit(l["ct"])} {flit(l["cp"])} {flit(l["cs"])} {coq_str(l["u"])})'
+    load = cload(sc['load'])
+    segs, cur = [], []
+    first_ops = None
+    for o in sc['ops']:
+        if o[0] == 'setload':
+            if first_ops is None:
+                first_ops = cur
+            else:
+                segs[-1][1].extend(cur)
+            segs.append([o[1], []])
+            cur = []
+        else:
+            cur.append(o)
+    if first_ops is None:
+        first_ops = cur
+    else:
+        segs[-1][1].extend(cur)
+    more = clist([f'({cload(l)}, {clist([cop(o) for o in ops])})' for l, ops in segs])
     if res['err'] is None:
         exp = f'(EHist {clist([crow(r) for r in res["rows"]])} {"true" if res["locked"] else "false"})'
     elif res['err'].startswith('Other'):
@@ -470,7 +499,7 @@ def case_coq(sc, res):
     else:
         exp = f'(EErr {res["err"]})'
     return (f'{{| k_chain := {chain}; k_load := {load}; k_pos0 := {cq(sc["pos0"])}; k_spd0 := {cq(sc["spd0"])}; '
-            f'k_ops := {clist([cop(o) for o in sc["ops"]])}; k_expect := {exp} |}}')
+            f'k_ops := {clist([cop(o) for o in first_ops])}; k_more := {more}; k_expect := {exp} |}}')
 
 
 HEADER = """From Coq Require Import ZArith String List PrimFloat.
